@@ -200,6 +200,9 @@ def run_random(cfg, seed, steps, weights=None, maxcmd=12, extra=None):
                 if item[0] == 'boot':
                     boot_phase(cl, rng, trace, state)
                     continue
+                if item[0] == 'relead':
+                    relead_phase(cl, rng, trace, state)
+                    continue
                 if item[0] == 'votenew':
                     votenew_phase(cl, rng, trace, state)
                     continue
@@ -415,6 +418,64 @@ def splitvote_phase(cl, rng, trace, state):
         for x in (A, B):
             while do(('Deliver', c, x)):
                 pass
+
+
+def relead_phase(cl, rng, trace, state):
+    """directed schedule: a leader is sending its snapshot in pieces to a follower that is behind; the follower's election
+    timer fires after the first piece (it moves to a newer term and ignores the rest, the leader is deposed by its vote
+    request); the same leader is elected again and goes on feeding that follower."""
+    N = cl.nodes
+
+    def do(act):
+        if cl.applicable(act):
+            trace.append(cl.step(act))
+            return True
+        return False
+    ids = sorted(n for n in N if N[n].alive)
+
+    def sending(l):
+        ser = getattr(N[l].obj, '_SyncObj__serializer')
+        return sorted(getattr(x, 'id', str(x)) for x in getattr(ser, '_Serializer__transmissions', {}))
+    L = m = None
+    for r in range(12):
+        ls = [(N[n].obj.raftCurrentTerm, n) for n in ids if N[n].voter and N[n].obj._isLeader()]
+        if ls:
+            L = max(ls)[1]
+            tg = [x for x in sending(L) if x in ids]
+            if tg:
+                m = tg[0]
+                break
+            do(('Tick', L, 'h'))
+            for x in ids:
+                if x != L:
+                    do(('Deliver', x, L))
+        else:
+            do(('Tick', rng.choice(ids), 'j'))
+            for (i, j) in sorted(cl.net.chan):
+                while do(('Deliver', i, j)):
+                    pass
+    if m is None:
+        return
+    for k in range(rng.choice([1, 1, 2, 3])):
+        do(('Deliver', L, m))
+    do(('Tick', m, 'j'))                          # the follower stands: newer term
+    while do(('Deliver', m, L)):                  # the leader hears of the newer term and steps down
+        pass
+    for k in range(rng.choice([0, 2, 50])):       # what it had sent meanwhile is ignored over there
+        if not do(('Deliver', L, m)):
+            break
+    others = [x for x in ids if x not in (L, m)]
+    for attempt in range(3):
+        do(('Tick', L, 'j'))                      # ... and is elected again
+        for x in others:
+            while do(('Deliver', m, x)):
+                pass
+            while do(('Deliver', L, x)):
+                pass
+            while do(('Deliver', x, L)):
+                pass
+        if N[L].obj._isLeader():
+            break
 
 
 def votenew_phase(cl, rng, trace, state):
